@@ -1,6 +1,8 @@
 package mon
 
 import (
+	"encoding/xml"
+	"math"
 	"bytes"
 	"encoding/json"
 	"fmt"
@@ -58,11 +60,15 @@ func (c17) Cases(tier string, race bool) int {
 func c17map(r *rand.Rand) map[string]interface{} {
 	keys := []string{"a", "b", "c", "k", "id", "items", "entry"}
 	var gen func(d int) interface{}
+	infs := r.Intn(10) == 0
 	scalar := func() interface{} {
 		switch r.Intn(7) {
 		case 6:
 			return nil
 		case 0:
+			if infs && r.Intn(3) == 0 {
+				return math.Inf(1 - 2*r.Intn(2)) // what a cast decode leaves under CastNanInf(true); the JSON encoders refuse it
+			}
 			return float64(r.Intn(6))
 		case 1:
 			return r.Intn(2) == 0
@@ -555,6 +561,13 @@ func c17round(c *core.Ctx) {
 	old := runtime.GOMAXPROCS(procs)
 	defer runtime.GOMAXPROCS(old)
 	c.NonTrivial(fmt.Sprint(c.Index, G, procs))
+	if c.Index%3 == 2 {
+		// a caller-supplied decoder configuration (set before the goroutines start, left alone while they run): the
+		// decoders read it, they have no business writing to it
+		mxj.CustomDecoder = &xml.Decoder{Strict: true}
+		defer func() { mxj.CustomDecoder = nil }()
+		c.Count("race:custom-decoder-installed")
+	}
 
 	if c.Index%4 == 1 {
 		c17gobChildren(c, []int{4, 8, 16, 32}[r.Intn(4)])
